@@ -1011,7 +1011,7 @@ theorem cycleOuts_length (name : String) (s : CState) (ticks : List Tick) :
 theorem mem_reap (name : String) (kg sg : Option (List String)) (g : String) :
     g ∈ (reap name kg sg).2 ↔
       ∃ k s, kg = some k ∧ sg = some s ∧ g ∈ s ∧ g ∉ k ∧ g ≠ "burrow-" ++ name := by
-  unfold reap
+  unfold reap reapIgnoring
   cases kg with
   | none => simp
   | some k =>
